@@ -794,6 +794,25 @@ pub fn run(o: &Opts) -> R<()> {
             }
         }
     }
+    // 3d. bulk copies whose constant size is not a whole number of words: every word of the copy, the last
+    //     partial one included, loaded and stored to a slot of its own
+    for op in [0x37u8, 0x39] {
+        for size in [1u16, 31, 32, 33, 40, 64, 65, 100, 394, 395, 400, 1000] {
+            let words = (usize::from(size).min(400) + 31) / 32;
+            let mut items = vec![Item::Push(vec![(size >> 8) as u8, size as u8]), p1(4), p1(0), Item::Op(op)];
+            for w in [0usize, words.saturating_sub(2), words - 1].iter().copied().collect::<BTreeSet<usize>>() {
+                let off = 32 * w;
+                items.extend([Item::Push(vec![(off >> 8) as u8, off as u8]), Item::Op(0x51), p1(w as u8), Item::Op(0x55)]);
+            }
+            items.push(Item::Op(0x00));
+            let code = assemble(&items);
+            let obs = observe(&code, &lim);
+            if obs.res == "ok" {
+                oks += 1;
+            }
+            emit(&mut ws, record("ragged-copy", &code, None, &obs), "ragged-copy", &mut count);
+        }
+    }
     // 4. C11: composition of fragments with disjoint slot sets, and renumbering
     let mut compose = 0usize;
     let mut renames = 0usize;
@@ -803,7 +822,7 @@ pub fn run(o: &Opts) -> R<()> {
         let mut b: Vec<VarDesc> = (0..rng.gen_range(1..4)).map(|_| idioms::random_var(&mut rng, &mut used)).collect();
         // often: both fragments write values from the same environment source, in different shapes
         if rng.gen_bool(0.5) {
-            let src = rng.gen_range(1..5);
+            let src = rng.gen_range(1..6);
             for v in a.iter_mut().chain(b.iter_mut()).filter(|v| v.wall == 0 && v.pre == 0) {
                 v.src = src;
                 if !v.access.contains('w') {
